@@ -392,6 +392,11 @@ class Worker(Node):
         """
         return Worker(self._group, self.szin, self.szout)
 
+    def dispose(self) -> None:
+        """Withdraw this (abandoned, never handed out) fork from its group and from the port registry."""
+        self._group.discard(self)
+        port.Subscription._PORTS.pop(self, None)  # pylint: disable=protected-access
+
     @classmethod
     def fgen(cls, builder: 'flow.Builder', szin: int, szout: int) -> typing.Iterator['flow.Worker']:
         """Generator producing forks of the same node belonging to the same group.
